@@ -154,8 +154,13 @@ impl<S: WebSocket, T: TimestampProvider> Task<S, T> {
                 (true, Ok(()))
             }
         };
-        self.wind_down(should_drain_frame_rx, tx_msg_rx, dropped_flows_rx)
-            .await;
+        self.wind_down(
+            should_drain_frame_rx,
+            res.is_err(),
+            tx_msg_rx,
+            dropped_flows_rx,
+        )
+        .await;
         res
     }
 
@@ -293,6 +298,7 @@ impl<S: WebSocket, T: TimestampProvider> Task<S, T> {
     async fn wind_down(
         &self,
         should_drain_msg_rx: bool,
+        errored: bool,
         mut tx_msg_rx: mpsc::UnboundedReceiver<Message>,
         mut dropped_flows_rx: mpsc::UnboundedReceiver<u32>,
     ) {
@@ -338,7 +344,17 @@ impl<S: WebSocket, T: TimestampProvider> Task<S, T> {
         poll_fn(|cx| self.ws.lock().poll_close_unpin(cx)).await.ok();
         // The above line only closes the `Sink`. Before we terminate connections,
         // we dispatch the remaining frames in the `Source` to our streams.
-        while let Some(Ok(msg)) = poll_fn(|cx| self.ws.lock().poll_next_unpin(cx)).await {
+        // After an error (transport failure, keepalive timeout, invalid frame) the peer
+        // cannot be relied on to end the `Source`: only take what is already there,
+        // otherwise nothing would ever tell our streams and pending calls that we are done.
+        loop {
+            let next = poll_fn(|cx| self.ws.lock().poll_next_unpin(cx));
+            let msg = if errored {
+                next.now_or_never().flatten()
+            } else {
+                next.await
+            };
+            let Some(Ok(msg)) = msg else { break };
             debug!("processing remaining message after closure {msg:?}");
             self.process_message(msg, true).await.ok();
         }
